@@ -13,7 +13,7 @@ or None (unclassified = violation).
 """
 import ast
 
-from ..core.astutil import (u, call_name, calls, iter_stmts, compare_triples, const, parent_map, conjuncts, disjuncts,
+from ..core.astutil import (u, call_name, calls, iter_stmts, compare_triples, const, parent_map, conjuncts, disjuncts, resolved,
                             stores_in, index_elts, ncmp)
 
 
@@ -212,17 +212,36 @@ def _positive_threshold(b, f, idx):
     return False
 
 
+def _potential_gain(func, test_if, hi, idx):
+    """The gain `hi` of the test `K < hi` is a difference of POTENTIALS: hi = s_new - s_best where s_best is a carried local that the guarded block
+    updates to s_new (`best_projection = projection`).  Then the accepted potential is a fixed floating-point number that strictly increases,
+    and a finite state space cannot be cycled.  A gain that is recomputed from the pair (current, candidate) — dot(d, v[c] - v[best]) — is NOT such a
+    difference: rounding can make every step of a cycle of tied states look like a gain (finding R)."""
+    e = resolved(func.node, hi)
+    if not (isinstance(e, ast.BinOp) and isinstance(e.op, ast.Sub) and isinstance(e.right, ast.Name)):
+        return False
+    carried, new = e.right.id, u(e.left)
+    for st in iter_stmts(test_if.body):
+        if isinstance(st, ast.Assign) and any(u(t_) == carried for t_ in st.targets) and u(st.value) == new:
+            return True
+    return False
+
+
 def _gain_guarded(func, stmt, pm, idx, stop_at):
-    """stmt lies inside an `if X > K:` (K a positive constant) within stop_at: returns the test text or None"""
+    """stmt lies inside an `if X > K:` (K a positive constant, X a difference of potentials) within stop_at: returns the test text, the string
+    'NOT-A-POTENTIAL: ...' when the threshold is there but the gain is recomputed from the pair of states, or None"""
     cur = stmt
+    found = None
     while cur is not stop_at and cur in pm:
         par = pm[cur]
         if isinstance(par, ast.If) and cur in par.body and ncmp(par.test) is not None:
             op, lo, hi = ncmp(par.test)            # lo < hi
             if op == "<" and _positive_threshold(lo, func, idx):
-                return u(par.test)
+                if _potential_gain(func, par, hi, idx):
+                    return u(par.test)
+                found = "NOT-A-POTENTIAL: " + u(par.test)
         cur = par
-    return None
+    return found
 
 
 def _flag_sets(func, body, flag, cont_val, idx):
@@ -235,8 +254,10 @@ def _flag_sets(func, body, flag, cont_val, idx):
             if v is cont_val:
                 n += 1
                 g = _gain_guarded(func, st, pmf, idx, func.node)
-                if g is None:
+                if g is None or g.startswith("NOT-A-POTENTIAL"):
                     ok = False
+                    if g is not None:
+                        ev.append(g)
                 else:
                     ev.append(g)
             elif v is (not cont_val):
@@ -271,7 +292,11 @@ def _progress_flag(loop, f, idx, pm):
     if reset:
         ok, ev, n = _flag_sets(f, loop.body, flag, cont_val, idx)
         if ok and n >= 1:
-            return "PROGRESS", "progress flag %s: reset at the start of every round, set to continue only when %s (strict gain over a finite vertex set)" % (flag, "; ".join(sorted(set(ev))))
+            return "PROGRESS", "progress flag %s: reset at the start of every round, set to continue only when %s (strict increase of a carried per-state potential over a finite vertex set)" % (flag, "; ".join(sorted(set(ev))))
+        bad = [e_ for e_ in ev if e_.startswith("NOT-A-POTENTIAL")]
+        if bad:
+            return None, ("the loop continues on `%s`, a gain recomputed from the pair (current state, candidate) instead of the difference of two stored per-state "
+                          "potentials: for states that tie up to rounding every step of a cycle can look like a gain, and the loop never ends" % bad[0][17:])
         return None
     # (b) the flag is the result of a helper that reports whether it moved:  x, F = helper(...)
     asg = [st for st in loop.body if isinstance(st, ast.Assign) and isinstance(st.value, ast.Call)
@@ -507,39 +532,9 @@ def classify_while(loop, f, idx):
     #                  seen.  Recognised however the flag is organised: `while not converged` (reset to True, cleared on gain), `while improved`
     #                  (assigned from a helper that reports whether it moved), `while True: improved = False ... if not improved: return`.
     pf = _progress_flag(loop, f, idx, pm)
-    if pf is not None:
+    if pf is not None and pf[0] is not None:
         return pf
-    # ---------------- flag progress (hill climbing)
-    if isinstance(loop.test, ast.UnaryOp) and isinstance(loop.test.op, ast.Not) and isinstance(loop.test.operand, ast.Name):
-        flag = loop.test.operand.id
-        sets_true = [st for st in loop.body if isinstance(st, ast.Assign) and u(st.targets[0]) == flag and const(st.value) is True]
-        sets_false = [st for st in body_sts if isinstance(st, ast.Assign) and u(st.targets[0]) == flag and const(st.value) is False]
-        if sets_true and loop.body.index(sets_true[0]) == 0 and sets_false:
-            good = True
-            evid = []
-            for sf in sets_false:
-                g = pm.get(sf)
-                if not (isinstance(g, ast.If) and isinstance(g.test, ast.Compare)):
-                    good = False
-                    continue
-                op, b, a = ncmp(g.test) or (None, None, None)   # normalised:  bound < gain
-                op = ">" if op == "<" else None
-                # strict gain over a positive constant
-                if op == ">" and isinstance(b, ast.Name):
-                    r = idx.resolve_name(f.module, b.id)
-                    val = r[1] if r and r[0] == "const" else None
-                    if not (isinstance(val, (int, float)) and val > 0) :
-                        # EPSILON-derived constants: accept names assigned from a positive product of EPSILON
-                        node = f.module.const_nodes.get(b.id)
-                        if node is None or "EPSILON" not in u(node):
-                            good = False
-                    evid.append("continues only on %s" % u(g.test))
-                elif op == ">" and isinstance(const(b), (int, float)) and const(b) >= 0:
-                    evid.append("continues only on %s" % u(g.test))
-                else:
-                    good = False
-            if good:
-                return "PROGRESS", "flag loop: %s is reset to True each round and cleared only when %s (strict gain over a finite vertex set)" % (flag, "; ".join(evid))
+    pf_reason = pf[1] if pf is not None else None
     # ---------------- while True families
     if const(loop.test) is True or u(loop.test) == "True":
         # state progress: continue iff state == X.Unknown where state comes from a helper
@@ -594,7 +589,7 @@ def classify_while(loop, f, idx):
         uses_tol = [st for st in exits if any(p in {n.id for n in ast.walk(st.test) if isinstance(n, ast.Name)} for p in tol_params)]
         if uses_tol and all(st in loop.body for st in uses_tol):
             return "TOLERANCE", "no cap; exit test `%s` against the caller's tolerance is evaluated on every iteration (termination not proved)" % u(uses_tol[0].test)[:80]
-    return None, "no exit discipline recognised"
+    return None, (pf_reason or "no exit discipline recognised")
 
 
 def _always_exits(body):
